@@ -1,8 +1,8 @@
 //! further operations (evaluator, iterator, ranges, scopes) -- grown property by property
 use crate::util::*;
 use espada::card::Card;
-use espada::evaluator::{MadeHand, Showdown};
-use espada::hand_range::CardPair;
+use espada::evaluator::{FlopExhaustiveEvaluator, MadeHand, Showdown};
+use espada::hand_range::{CardPair, HandRange};
 
 pub fn run_op2(op: &str, a: &[&str]) -> String {
     let n = |i: usize| -> usize { a[i].parse::<usize>().unwrap() };
@@ -42,8 +42,165 @@ pub fn run_op2(op: &str, a: &[&str]) -> String {
                 None => "panic".to_string(),
             }
         }
+        "iter" => op_iter(a),
         _ => format!("bad-op {}", op),
     }
+}
+
+pub struct IterReq {
+    pub mode: String,
+    pub nextra: usize,
+    pub board: [Option<Card>; 5],
+    pub scope: (u8, u8, u8, u8),
+    pub set_scope: usize,
+    pub ranges: Vec<Vec<(CardPair, f32)>>,
+}
+
+/// iter <debug> <mode> <nextra> b0 b1 b2 b3 b4 tf rf tt rt <setscope> <np> [<n> (<combo> <wbits>)*]*
+pub fn parse_iter(a: &[&str]) -> IterReq {
+    let n = |i: usize| -> usize { a[i].parse::<usize>().unwrap() };
+    let mut board = [None; 5];
+    for k in 0..5 {
+        if a[3 + k] != "-" {
+            board[k] = Some(card_of(n(3 + k)));
+        }
+    }
+    let np = n(13);
+    let mut ranges = vec![];
+    let mut i = 14;
+    for _ in 0..np {
+        let k = n(i);
+        i += 1;
+        let mut es = vec![];
+        for _ in 0..k {
+            es.push((pair_of(n(i)), f32::from_bits(a[i + 1].parse::<u32>().unwrap())));
+            i += 2;
+        }
+        ranges.push(es);
+    }
+    IterReq {
+        mode: a[1].to_string(),
+        nextra: n(2),
+        board,
+        scope: (n(8) as u8, n(9) as u8, n(10) as u8, n(11) as u8),
+        set_scope: n(12),
+        ranges,
+    }
+}
+
+pub fn fnv(mut h: u64, s: &str) -> u64 {
+    for b in s.bytes() {
+        h = (h ^ b as u64).wrapping_mul(0x100000001b3);
+    }
+    h
+}
+
+fn group_key(s: &str) -> &str {
+    s.split(" players=").next().unwrap_or("")
+}
+
+/// sort the strings inside each maximal run of equal board
+pub fn canon_groups(l: Vec<String>) -> Vec<String> {
+    let mut out: Vec<String> = Vec::with_capacity(l.len());
+    let mut cur: Vec<String> = vec![];
+    let mut key = String::new();
+    for s in l {
+        let k = group_key(&s).to_string();
+        if k != key {
+            cur.sort();
+            out.append(&mut cur);
+            key = k;
+        }
+        cur.push(s);
+    }
+    cur.sort();
+    out.append(&mut cur);
+    out
+}
+
+pub fn digest_of(l: &[String]) -> u64 {
+    let mut h: u64 = 0xcbf29ce484222325;
+    for s in l {
+        h = fnv(fnv(h, s), "\n");
+    }
+    h
+}
+
+/// build the ranges by `collect()` from the listed entries (insertion order); also return, per player, the
+/// positions of the listed entries in the order the built map iterates them (an INPUT of the model)
+pub fn build_ranges(req: &IterReq) -> Option<(Vec<HandRange>, String)> {
+    let mut players = vec![];
+    let mut orders: Vec<String> = vec![];
+    for es in &req.ranges {
+        let hr: HandRange = es.iter().cloned().collect();
+        if hr.card_pairs().len() != es.len() {
+            return None; // duplicate combos in the request
+        }
+        let ord: Vec<String> = hr
+            .card_pairs()
+            .iter()
+            .map(|(k, _)| es.iter().position(|e| e.0 == *k).unwrap().to_string())
+            .collect();
+        orders.push(ord.join(","));
+        players.push(hr);
+    }
+    Some((players, orders.join("|")))
+}
+
+pub fn make_evaluator(req: &IterReq, players: &Vec<HandRange>) -> FlopExhaustiveEvaluator {
+    let mut ev = FlopExhaustiveEvaluator::new(&req.board, players);
+    let (tf, rf, tt, rt) = req.scope;
+    match req.set_scope {
+        0 => {}
+        1 => ev.scope(tf, rf, tt, rt),
+        _ => {
+            ev.scope(3, 7, 20, 30);
+            ev.scope(tf, rf, tt, rt);
+        }
+    }
+    ev
+}
+
+fn op_iter(a: &[&str]) -> String {
+    let req = parse_iter(a);
+    let (players, order) = match build_ranges(&req) {
+        Some(p) => p,
+        None => return "bad-request".to_string(),
+    };
+    let res = guarded(|| {
+        let ev = make_evaluator(&req, &players);
+        let mut it = ev.into_iter();
+        let mut strs: Vec<String> = vec![];
+        while let Some(sd) = it.next() {
+            strs.push(show_showdown(&sd));
+        }
+        let mut extra: Vec<&str> = vec![];
+        for _ in 0..req.nextra {
+            match guarded(|| it.next()) {
+                Some(None) => extra.push("none"),
+                Some(Some(_)) => extra.push("some"),
+                None => {
+                    extra.push("panic");
+                    break;
+                }
+            }
+        }
+        (strs, extra.join(","))
+    });
+    let body = match res {
+        None => "panic".to_string(),
+        Some((strs, extra)) => {
+            let n = strs.len();
+            let canon = canon_groups(strs);
+            let d = digest_of(&canon);
+            if req.mode == "full" {
+                format!("ok n={} digest={} extra={} all={}", n, d, extra, canon.join(";"))
+            } else {
+                format!("ok n={} digest={} extra={}", n, d, extra)
+            }
+        }
+    };
+    format!("{} order={}", body, order)
 }
 
 /// canonical text of a showdown (same format as the model driver)
@@ -61,6 +218,50 @@ pub fn show_showdown(sd: &Showdown) -> String {
     format!("some board={} players={} wl={} prob={}", b.join(" "), ps.join(" "), wl, sd.probability().to_bits())
 }
 
-pub fn special(_cmd: &str, _args: &[String]) -> bool {
-    false
+/// process-level runs (C08): `drain2m` reads iter requests on stdin and drains each one on a fresh thread
+/// with a 2 MiB stack (the default of `std::thread::spawn`), printing `ok n=<count>` / `panic` per request.
+/// A stack overflow or abort kills the process: the caller sees the exit status and the missing lines.
+pub fn special(cmd: &str, _args: &[String]) -> bool {
+    match cmd {
+        "drain2m" => {
+            silence_panics();
+            use std::io::{BufRead, Write};
+            let stdin = std::io::stdin();
+            for line in stdin.lock().lines() {
+                let line = line.unwrap();
+                let toks: Vec<String> = line.split_whitespace().map(|s| s.to_string()).collect();
+                if toks.is_empty() || toks[0] != "iter" {
+                    println!("bad-op");
+                    continue;
+                }
+                let th = std::thread::Builder::new()
+                    .stack_size(2 * 1024 * 1024)
+                    .spawn(move || {
+                        let a: Vec<&str> = toks[1..].iter().map(|s| s.as_str()).collect();
+                        let req = parse_iter(&a);
+                        let players = match build_ranges(&req) {
+                            Some(p) => p.0,
+                            None => return "bad-request".to_string(),
+                        };
+                        match guarded(|| {
+                            let ev = make_evaluator(&req, &players);
+                            let mut n: u64 = 0;
+                            for _sd in ev {
+                                n += 1;
+                            }
+                            n
+                        }) {
+                            Some(n) => format!("ok n={}", n),
+                            None => "panic".to_string(),
+                        }
+                    })
+                    .unwrap();
+                let ans = th.join().unwrap_or_else(|_| "panic".to_string());
+                println!("{}", ans);
+                std::io::stdout().flush().unwrap();
+            }
+            true
+        }
+        _ => false,
+    }
 }
